@@ -23,20 +23,21 @@ func init() {
 }
 
 type c14Case struct {
-	Src    fsmodel.Tree `json:"src"`
-	Dst    fsmodel.Tree `json:"dst"`
-	SrcArg string       `json:"srcarg"`
-	DstArg string       `json:"dstarg"`
-	Follow bool         `json:"follow,omitempty"`
-	Wild   bool         `json:"wild,omitempty"`
-	Repl   bool         `json:"repl,omitempty"`
-	DirC   bool         `json:"dirc,omitempty"`
-	Mode   bool         `json:"mode,omitempty"` // numeric Mode option 0777
+	Src     fsmodel.Tree `json:"src"`
+	Dst     fsmodel.Tree `json:"dst"`
+	SrcArg  string       `json:"srcarg"`
+	DstArg  string       `json:"dstarg"`
+	Follow  bool         `json:"follow,omitempty"`
+	Wild    bool         `json:"wild,omitempty"`
+	Repl    bool         `json:"repl,omitempty"`
+	DirC    bool         `json:"dirc,omitempty"`
+	Mode    bool         `json:"mode,omitempty"` // numeric Mode option 0777
+	Include []string     `json:"include,omitempty"`
 }
 
 func (c c14Case) String() string {
-	return fmt.Sprintf("srcroot=%s dstroot=%s Copy(%q -> %q) follow=%v wildcards=%v always-replace=%v dircontents=%v mode=%v",
-		shapeOf(c.Src), shapeOf(c.Dst), c.SrcArg, c.DstArg, c.Follow, c.Wild, c.Repl, c.DirC, c.Mode)
+	return fmt.Sprintf("srcroot=%s dstroot=%s Copy(%q -> %q) follow=%v wildcards=%v always-replace=%v dircontents=%v mode=%v include=%q",
+		shapeOf(c.Src), shapeOf(c.Dst), c.SrcArg, c.DstArg, c.Follow, c.Wild, c.Repl, c.DirC, c.Mode, c.Include)
 }
 
 var c14Targets = []string{"/outside/f", "/outside/d", "../outside/d", "../../..", "/nowhere", "."}
@@ -134,7 +135,7 @@ func judgeC14(root string, c c14Case) (string, string) {
 	if err != nil {
 		return "infra", err.Error()
 	}
-	ci := fscopy.CopyInfo{FollowLinks: c.Follow, AllowWildcards: c.Wild, AlwaysReplaceExistingDestPaths: c.Repl, CopyDirContents: c.DirC}
+	ci := fscopy.CopyInfo{FollowLinks: c.Follow, AllowWildcards: c.Wild, AlwaysReplaceExistingDestPaths: c.Repl, CopyDirContents: c.DirC, IncludePatterns: c.Include}
 	if c.Mode {
 		m := 0777
 		ci.Mode = &m
@@ -192,7 +193,7 @@ func c14Cases(tier string) []c14Case {
 			}
 		}
 	}
-	srcArgs := []string{"/", "a", "a/f", "b", "*", "a/*", "l", "l/f", "c", "?"}
+	srcArgs := []string{"/", "a", "a/f", "b", "*", "a/*", "l", "l/f", "c", "?", "a/..", "c/../a/..", "a/../../b"}
 	dstArgs := []string{"/", "a", "a/f", "x", "new", "l", "l/sub", "x/", "l/"}
 	var pairs [][2]fsmodel.Tree
 	for _, s := range srcV {
@@ -221,6 +222,15 @@ func c14Cases(tier string) []c14Case {
 						continue
 					}
 					out = append(out, c)
+				}
+			}
+		}
+		// include patterns that select a nested entry without matching the directories above it: the
+		// parents are created on demand and may collide with what the destination holds
+		for _, inc := range [][]string{{"a/f"}, {"*/f"}, {"c/g"}, {"a/*"}} {
+			for _, da := range []string{"/", "x", "l"} {
+				for o := 0; o < 8; o++ {
+					out = append(out, c14Case{Src: pr[0], Dst: pr[1], SrcArg: "/", DstArg: da, Follow: o&1 != 0, Repl: o&2 != 0, DirC: o&4 != 0, Include: inc})
 				}
 			}
 		}
